@@ -88,6 +88,10 @@ pub struct Storage<B, OC, SC, L> {
 
     // who is loading what through the object cache (see `StorageResolver::get`)
     loads: Mutex<LoadGraph>,
+
+    // The object stream used last: its members are usually read one after the other, and without an
+    // object cache each of them would parse the stream's offset table again.
+    last_object_stream: Mutex<Option<(ObjNr, RcRef<ObjectStream>)>>,
 }
 
 /// The object cache makes a thread wait for an object that another thread is loading.  References
@@ -119,6 +123,7 @@ where
             start_offset: 0,
             log,
             loads: Mutex::new(LoadGraph::default()),
+            last_object_stream: Mutex::new(None),
         }
     }
 }
@@ -153,6 +158,7 @@ where
             options,
             log,
             loads: Mutex::new(LoadGraph::default()),
+            last_object_stream: Mutex::new(None),
         })
     }
     fn decode(&self, id: PlainRef, range: Range<usize>, filters: &[StreamFilter]) -> Result<Arc<[u8]>> {
@@ -279,7 +285,15 @@ where
                 }
                 XRef::Stream {stream_id, index} => {
                     // use get to cache the object stream
-                    let obj_stream = resolve.get::<ObjectStream>(Ref::from_id(stream_id))?;
+                    let last = self.last_object_stream.lock().unwrap().as_ref().filter(|(id, _)| *id == stream_id).map(|(_, s)| s.clone());
+                    let obj_stream = match last {
+                        Some(s) => s,
+                        None => {
+                            let s = resolve.get::<ObjectStream>(Ref::from_id(stream_id))?;
+                            *self.last_object_stream.lock().unwrap() = Some((stream_id, s.clone()));
+                            s
+                        }
+                    };
 
                     let (data, range) = t!(obj_stream.get_object_slice(index, resolve));
                     let slice = data.get(range.clone()).ok_or_else(|| other!("invalid range {:?}, but only have {} bytes", range, data.len()))?;
@@ -529,6 +543,7 @@ where
         // typed loads and decoded stream data of this object may be cached: drop them
         self.cache.clear();
         self.stream_cache.clear();
+        *self.last_object_stream.lock().unwrap() = None;
         let rc = Shared::new(obj);
         
         Ok(RcRef::new(r, rc))
@@ -615,6 +630,7 @@ where
 
         // update trailer which may have change now.
         self.cache.clear();
+        *self.last_object_stream.lock().unwrap() = None;
         *trailer = Trailer::from_dict(trailer_dict, &self.resolver())?;
 
         Ok(())
